@@ -138,7 +138,7 @@ Proof.
       * eexists. eexists. split; [reflexivity|]. right. right. cbn. rewrite app_nil_r. auto.
 Qed.
 
-Lemma erase_entry_record C c s1 X1 fr tr sv a o pos :
+Lemma erase_entry_record C c s1 X1 fr tr sv (a : N) o pos (sh0 : shape) :
   erase (xout X1) = out s1 ->
   erase (xout (match stack (entry_record c s1 fr tr sv) with
                | [] => X1
@@ -150,7 +150,8 @@ Lemma erase_entry_record C c s1 X1 fr tr sv a o pos :
                        push (emit X1 its p') fx0
                      else push X1 fx0
                    else
-                     let x := if read_of C a =? 0 then fx0 else save_trigger_read C top o false fx0 in
+                     let x0 := fxa (match sh0 with PG => o_asz o | CYG => None end) in
+                     let x := if read_of C a =? 0 then x0 else save_trigger_read C top o false x0 in
                      push (x_watch C top pos o X1) x
                end)) = out (entry_record c s1 fr tr sv).
 Proof.
@@ -184,11 +185,11 @@ Proof.
   set (X1 := x_check_rstack (xb C) s X0) in *.
   destruct (shp (xb C)) eqn:SH; destruct v.
   - (* PG, V_IN *)
-    apply (erase_entry_record C (xb C) s1 X1 _ tr sv a o (idx s1) H1).
+    apply (erase_entry_record C (xb C) s1 X1 _ tr sv a o (idx s1) PG H1).
   - exact H1.
   - exact H1.
-  - apply (erase_entry_record C (xb C) s1 X1 _ tr sv a o (idx s1) H1).
-  - apply (erase_entry_record C (xb C) s1 X1 _ tr sv a o (idx s1) H1).
+  - apply (erase_entry_record C (xb C) s1 X1 _ tr sv a o (idx s1) CYG H1).
+  - apply (erase_entry_record C (xb C) s1 X1 _ tr sv a o (idx s1) CYG H1).
   - rewrite xout_push. cbn [out]. exact H1.
 Qed.
 
